@@ -43,8 +43,14 @@ import (
 	"os"
 	"sort"
 	"strings"
+	"syscall"
 	"testing"
 	"time"
+
+	"path/filepath"
+
+	"github.com/ARM-software/golang-utils/utils/filesystem"
+	"github.com/spf13/afero"
 
 	ev "verif/engine/evidence"
 )
@@ -773,6 +779,7 @@ func TestC06(t *testing.T) {
 		return
 	}
 	bd := tierBounds()
+	pathConversionCheck(rep)
 
 	visited := map[string]bool{}
 	var frontier []stateRec
@@ -851,6 +858,11 @@ func TestC06(t *testing.T) {
 	rep.Coverage["executions_moved_to_the_sacrificial_helper_process"] = total.HelperRuns
 	rep.Coverage["helper_processes_killed_by_the_code_under_test"] = total.HelperDeaths
 	rep.Coverage["empty_path_calls_stopped_by_the_sandbox_guard_not_compared"] = total.GuardedEmpty
+	var ru syscall.Rusage
+	if syscall.Getrusage(syscall.RUSAGE_CHILDREN, &ru) == nil {
+		// wall time depends on what else the machine is doing; this does not
+		rep.Coverage["cpu_seconds_of_the_worker_processes"] = float64(ru.Utime.Sec+ru.Stime.Sec) + float64(ru.Utime.Usec+ru.Stime.Usec)/1e6
+	}
 	rep.Coverage["per_level"] = perLevel
 	rep.Coverage["bound"] = bd
 	rep.Coverage["alphabet_calls"] = len(allCalls)
@@ -925,4 +937,49 @@ func replayCase(s *search, path string) {
 	rep.Coverage["transitions"] = s.total.Transitions
 	rep.Coverage["traces_validated_against_impl"] = s.total.Validated * 2
 	rep.Coverage["samples"] = []any{map[string]any{"replayed": path, "reproduced": reproduced}}
+}
+
+// pathConversionCheck: ConvertToAbsolutePath / ConvertToRelativePath do not touch the tree; they are checked once, on
+// both backend types, against the obvious model (join with the root and clean; the relative path that leads from the
+// root to the path) and against each other (round trip).
+func pathConversionCheck(rep *ev.Reporter) {
+	cases := 0
+	for _, b := range []*backend{newMemBackend(), {name: "os", root: sandboxPrefix + "000000000000/w0/r", ctl: &control{isOS: true}}} {
+		if err := func() error {
+			if b.name == "mem" {
+				return b.materialise(tree{})
+			}
+			// no backend access is needed (and none is made: the root does not exist)
+			b.fs = filesystem.NewVirtualFileSystem(afero.NewOsFs(), filesystem.StandardFS, filesystem.IdentityPathConverterFunc)
+			return nil
+		}(); err != nil {
+			rep.EngineError("path conversion: %v", err)
+			return
+		}
+		for _, root := range []string{b.root, b.root + "/a", b.root + "/a/"} {
+			for _, rel := range relPaths {
+				if rel == "" {
+					continue
+				}
+				cases++
+				wantAbs := filepath.Clean(filepath.Join(root, rel))
+				got, err := b.fs.ConvertToAbsolutePath(root, rel)
+				if err != nil || len(got) != 1 || got[0] != wantAbs {
+					rep.Violation("ConvertToAbsolutePath:"+b.name+":value", map[string]any{"root": root, "path": rel, "got": got, "err": fmt.Sprint(err), "want": wantAbs})
+					continue
+				}
+				back, err := b.fs.ConvertToRelativePath(root, got[0])
+				if err != nil || len(back) != 1 || back[0] != filepath.Clean(rel) {
+					rep.Violation("ConvertToRelativePath:"+b.name+":value", map[string]any{"root": root, "path": got[0], "got": back, "err": fmt.Sprint(err), "want": filepath.Clean(rel)})
+				}
+				// an absolute path is kept as it is
+				abs := b.root + "/" + rel
+				got, err = b.fs.ConvertToAbsolutePath(root, abs)
+				if err != nil || len(got) != 1 || got[0] != abs {
+					rep.Violation("ConvertToAbsolutePath(absolute):"+b.name+":value", map[string]any{"root": root, "path": abs, "got": got, "err": fmt.Sprint(err), "want": abs})
+				}
+			}
+		}
+	}
+	rep.Coverage["path_conversion_cases"] = cases
 }
